@@ -56,7 +56,7 @@ def cases(tier, seed, shard, nshards):
                "fail": sorted(rng.sample(range(1, 7), rng.choice([0, 0, 1, 2]))),
                "cancel_task": rng.randrange(nt) if rng.random() < 0.4 else None,
                "runs": DFS_LIMIT[tier] if mode == "dfs" else RANDOM_RUNS[tier], "seed": rng.randrange(1 << 30),
-               "exc": rng.choice(PLANNED_NAMES),
+               "exc": rng.choice(PLANNED_NAMES), "falsy_value": rng.choice([None, None, "none", "none", "zero", "empty"]),
                "epilogue": [rng.randrange(nkeys + 1) for _ in range(rng.randint(3, 7))]}
 
 
@@ -73,6 +73,12 @@ def execute(case, choose, cancel_at=None):
     viols = []
     fail = set(case["fail"])
 
+    def mkval(key, rid):
+        # for key 0 the function may return None (or another falsy constant): a result like any other
+        if key == 0 and case.get("falsy_value") is not None:
+            return {"none": None, "zero": 0, "empty": ()}[case["falsy_value"]]
+        return ("v", key, rid)
+
     async def wrapped(key):
         state["runs"] += 1
         rid = state["runs"]
@@ -87,7 +93,7 @@ def execute(case, choose, cancel_at=None):
                 raise _planned(case)(rid)
         finally:
             state["active"][key] -= 1
-        value = ("v", key, rid)
+        value = mkval(key, rid)
         produced[rid] = (key, "ok")
         success.setdefault(key, []).append(value)
         return value
@@ -159,7 +165,10 @@ def execute(case, choose, cancel_at=None):
                           f"{t.name} was cancelled at resumption {t.cancel_at} (inside {t.cancelled_at_owner}) but ended "
                           f"with {'value ' + repr(t.value) if t.exc is None else repr(t.exc)}"))
     for t, key, value in received:
-        ok = isinstance(value, tuple) and len(value) == 3 and value[1] == key and produced.get(value[2]) == (key, "ok")
+        if key == 0 and case.get("falsy_value") is not None:
+            ok = value == mkval(0, 0) and type(value) is type(mkval(0, 0)) and (0, "ok") in produced.values()
+        else:
+            ok = isinstance(value, tuple) and len(value) == 3 and value[1] == key and produced.get(value[2]) == (key, "ok")
         if not ok:
             viols.append(("lru_cache/foreign-value", f"task {t} asked for key {key} and received {value!r}"))
     # ---- quiescence: existential epilogue ---------------------------------------------------
@@ -195,7 +204,7 @@ def execute(case, choose, cancel_at=None):
                     else:
                         misses += 1
                         runs += 1
-                        val = ("v", key, runs)
+                        val = mkval(key, runs)
                         if maxsize is not None and len(model) >= maxsize:
                             model.popitem(last=False)
                         model[key] = val
